@@ -21,7 +21,10 @@ from symx.lib import M, nilerr, mk_error, fork_results
 SV = z3.StringVal
 S = z3.StringSort()
 SHARED = ('localAuthData', 'vipPushCookie', 'pendingOauth2', 'totpLocalRateLimit')
+# fields of the daemon state that are assigned after start-up (by the unseal transition) and read by request handlers: write-once publication
+FIELDS = ('Signer', 'Ed25519Signer', 'caCertDer', 'KeymasterPublicKeys', 'selfRoleCaCertDer')
 WATCH = re.compile(r'^\*state\.(' + '|'.join(SHARED) + r')$')
+LOCKSET_SUMMARIES = re.compile(r'\.(getPreferredAcceptType|profileURI|metricLogAuthOperation|getClientType|userHasU2FTokens|trySelfServiceGenerateBootstrapOTP|userBootstrapOtpHash|getUserFromRequest|ensureHTMLSafeLoginDestination)$|/lib/authutil\.')
 BACKGROUND = (f'(*{M}.RuntimeState).performStateCleanup',)
 _IR = None
 
@@ -65,12 +68,24 @@ def lockset_worker(item):
     def extra(H):
         H.ex.watch_maps = WATCH
         H.stub(f'(*{M}.RuntimeState).writeFailureResponse', am.st_fail)
-        H.add_hints(lens(r'^range\(', [0, 1]), lens(r'OpenIDConnectIDP\.Client\)$', [0]))
+        H.add_hints(lens(r'AllowedAuthBackendsFor\w+\)$', [0]), lens(r'^range\(', [0, 1]), lens(r'OpenIDConnectIDP\.Client\)$', [0]))
+        H.stub(f'(*{M}.RuntimeState).writeHTMLLoginPage', lambda ex_, st, a, ins: st.ev('page', kind='login') and None)
+        H.stub(f'(*{M}.RuntimeState).writeHTML2FAAuthPage', lambda ex_, st, a, ins: (st.ev('page', kind='2fa'), nilerr())[1])
+        H.stub(f'{M}.getLoginDestination', sweep.st_filtered_destination)
+        H.no_inline = LOCKSET_SUMMARIES
     try:
+        RS = ir.typeid(M + '.RuntimeState')
+        def arm(H, state):
+            out['state_mutex'] = repr(Ptr(state.obj, (ir.field_index(RS, 'Mutex'),)))
+            for fname in FIELDS: H.ex.watch_fields[(state.obj, (ir.field_index(RS, fname),))] = '*state.' + fname
         if kind == 'route':
-            H, paths, path = sweep.run_route(ir, rt, budget_s=150, extra=extra, max_paths=30000, loop_bound=3)
+            H, st, state, w, r, path = sweep.mkrun(ir, rt, budget_s=600, extra=extra, max_paths=200000 if rt['path'] == '/api/v0/login' else 30000, loop_bound=3)
+            arm(H, state)
+            fn = ir.funcs[rt['handler']]; np_ = len(fn['params'] or [])
+            paths = H.run(rt['handler'], st, [state, w, r] if np_ == 3 else [w, r]) if np_ in (2, 3) else None
         else:
-            H, st, state, w, r, path = sweep.mkrun(ir, {'path': None}, budget_s=60, extra=extra, loop_bound=2)
+            H, st, state, w, r, path = sweep.mkrun(ir, {'path': None}, budget_s=120, extra=extra, loop_bound=2)
+            arm(H, state)
             fn = ir.funcs[rt['handler']]
             args = [state] + [H.ex.fresh(st, p['type'], p['name']) for p in fn['params'][1:]]
             paths = H.run(rt['handler'], st, args)
@@ -79,9 +94,11 @@ def lockset_worker(item):
     if paths is None: out['inconclusive'] = 'no handler body'; return out
     seen = set()
     for p in paths:
+        after_cs = False      # a critical section of the state mutex has completed earlier on this path
         for e in p.events:
+            if e['k'] == 'unlock' and e.get('mu') == out.get('state_mutex'): after_cs = True
             if e['k'] != 'shared': continue
-            key = (e['obj'], e['kind'], e['where'], tuple(sorted(e.get('locks') or ())))
+            key = (e['obj'], e['kind'], e['where'], tuple(sorted(e.get('locks') or ())), after_cs)
             if key in seen: continue
             seen.add(key); out['events'].append(key)
     out['paths'] = len(paths); out['transitions'] = sum(p.decisions for p in paths) + len(paths)
@@ -97,17 +114,28 @@ def ob_lockset(chk, ir):
     t = time.time(); verdict = 'holds'
     sites = static_sites(ir)
     touching = {s[0] for s in sites}
+    # helpers that are summarised (not executed) in this obligation must not be able to reach an access of the shared maps or of a published field
+    RS = ir.typeid(M + '.RuntimeState'); fidx = {ir.field_index(RS, f) for f in FIELDS}
+    def reads_published(fname):
+        fn = ir.funcs.get(fname)
+        return bool(fn and fn.get('blocks') and any(ins['op'] == 'FieldAddr' and ins['field'] in fidx and ins['x'].get('name') == 'state' for b in fn['blocks'] for ins in b['instrs']))
+    for fname in ir.funcs:
+        if LOCKSET_SUMMARIES.search(fname) and fname.startswith(('(*' + M, M)):
+            reach = ir.reachable([fname])
+            if reach & touching or any(reads_published(f) for f in reach):
+                chk.obligation('lock-discipline', '-', 'inconclusive', f'a summarised helper can reach shared state: {fname}'); return
     # init-time writers (single-threaded, before any goroutine is started) are not roots
     todo = []
     for rt in routes(ir):
         h = rt['handler']
         if not isinstance(h, str) or h not in ir.funcs: continue
-        if ir.reachable([h]) & touching: todo.append(('route', rt))
+        todo.append(('route', rt))      # every route: the published fields (Signer, CA certificates, public keys) are read almost everywhere
     for b in BACKGROUND:
         if b in ir.funcs: todo.append(('bg', {'handler': b, 'path': None}))
     res = sweep.parallel(lockset_worker, todo)
-    events = []; npaths = 0
+    events = []; npaths = 0; state_mutex = None
     for item, out in zip(todo, res):
+        state_mutex = state_mutex or out.get('state_mutex')
         if out['inconclusive']:
             chk.obligation(f'lock-discipline root {out["root"]}', '-', 'inconclusive', out['inconclusive']); continue
         npaths += out['paths']
@@ -119,24 +147,33 @@ def ob_lockset(chk, ir):
     by = {}
     for e in events: by.setdefault(e[1].split('.')[-1], []).append(e)
     for obj, evs in sorted(by.items()):
-        if not any(e[2] == 'w' for e in evs): continue
-        # candidate guard: the mutex held at most accesses
+        if obj not in FIELDS and not any(e[2] == 'w' for e in evs): continue
+        # candidate guard: the mutex held at most accesses (published fields: the state mutex, under which the unseal transition assigns them - C09)
         count = {}
         for e in evs:
-            for l in e[4]: count[l] = count.get(l, 0) + 1
+            for l in e[4]:
+                if not l.startswith('('): count[l] = count.get(l, 0) + 1
         guard = max(count, key=count.get) if count else None
+        if obj in FIELDS: guard = state_mutex
         for e in evs:
-            if guard is None or guard not in e[4]:
-                fn, pos = e[3].split(' ')[0], e[3].split(' ')[-1]
+            if guard is not None and guard in e[4]: continue
+            fn, pos = e[3].split(' ')[0], e[3].split(' ')[-1]
+            if obj in FIELDS:
+                # write-once publication: an unlocked read is ordered after the write when a locked read of the same field precedes it on the path
+                # (the unseal transition assigns all of them inside one critical section of the state mutex; a request that went through a
+                # critical section of that mutex and continued has seen the signer non-nil, i.e. is ordered after the transition)
+                if e[2] == 'r' and e[5]: continue
+                what = f"{'write' if e[2] == 'w' else 'read'} of state.{obj} at {fn.split('.')[-1]} without holding the state mutex and without an earlier critical section of it on the path: it races with the unseal transition, which assigns the field under that mutex"
+            else:
                 what = f"{'write' if e[2] == 'w' else 'read'} of shared map {obj} at {fn.split('.')[-1]} without holding {guard or 'any mutex'} (other accesses hold it): data race with any concurrent request touching the map"
-                if chk.violation('lock-discipline', f'{obj}/{fn.split(".")[-1].strip(")")}/{e[2]}', what, {'root': e[0], 'where': e[3], 'locks_held': list(e[4]), 'guard': guard}) == 'new': verdict = 'violated'
+            if chk.violation('lock-discipline', f'{obj}/{fn.split(".")[-1].strip(")")}/{e[2]}', what, {'root': e[0], 'where': e[3], 'locks_held': list(e[4]), 'guard': guard}) == 'new': verdict = 'violated'
     if not events: chk.obligation('lock-discipline', '-', 'inconclusive', 'vacuous: no shared access event'); return
     if missing:
         chk.obligation('lock-discipline coverage', '-', 'inconclusive', f'shared-map access sites never reached by a symbolic path: {missing[:4]}'); return
     chk.witnesses += len(events)
-    chk.obligation('lock-discipline: every access of localAuthData / vipPushCookie / pendingOauth2 / totpLocalRateLimit holds the map\'s mutex (lockset condition); all static access sites covered',
-                   f'{len(todo)} roots (routes reaching an access + background cleanup), {len(sites)} static sites', verdict, paths=npaths, witness=f'{len(events)} distinct (site, lockset) events', t=time.time() - t)
-    chk.sample({'obligation': 'lock-discipline', 'sites': [list(s) for s in sites][:40], 'locksets': sorted({(e[1], e[2], e[3].split(' ')[0].split('.')[-1], e[4]) for e in events})[:60]})
+    chk.obligation('lock-discipline: every access of localAuthData / vipPushCookie / pendingOauth2 / totpLocalRateLimit holds the map\'s mutex (lockset condition), all static access sites covered; the fields published by the unseal transition are written under the state mutex and read under it or after a locked read',
+                   f'{len(todo)} roots (every route + background cleanup), {len(sites)} static map access sites, published fields {list(FIELDS)}', verdict, paths=npaths, witness=f'{len(events)} distinct (site, lockset) events', t=time.time() - t)
+    chk.sample({'obligation': 'lock-discipline', 'sites': [list(s) for s in sites][:40], 'locksets': sorted({(e[1], e[2], e[3].split(' ')[0].split('.')[-1], e[4], e[5]) for e in events})[:60]})
 
 
 UNITS = (f'(*{M}.RuntimeState).validateUserTOTP',)
